@@ -1453,4 +1453,45 @@ theorem once_false_after : ∀ (ops : List Op) (s : State), s.once = false → (
     exact ih _ (once_false_step h (hall op List.mem_cons_self)) (fun o ho => hall o (List.mem_cons_of_mem _ ho))
 
 
+/-- visits in a schedule -/
+def visits : List PassAct → Nat
+  | [] => 0
+  | .visit :: rest => visits rest + 1
+  | _ :: rest => visits rest
+
+/-- a running pass over `todo`, interleaved in any way with changes of the instance list by others and with further
+`begin`s: what it has run plus what it still has to run is invariant; after as many visits as instances remain it has run the
+callbacks of all of them -/
+theorem pass_invariant : ∀ (acts : List PassAct) (p : Pass) (todo : List Inst), p.remaining = some todo →
+    ∃ todo', (passRun p acts).remaining = some todo' ∧
+      (passRun p acts).out ++ shutdownEvents todo' = p.out ++ shutdownEvents todo ∧
+      todo'.length = todo.length - visits acts := by
+  intro acts
+  induction acts with
+  | nil => intro p todo h; exact ⟨todo, h, rfl, by simp [visits]⟩
+  | cons a rest ih =>
+    intro p todo h
+    cases a with
+    | begin =>
+      have e : passStep p .begin = p := by simp [passStep, h]
+      simp only [passRun, e, visits]
+      exact ih p todo h
+    | mutate f =>
+      obtain ⟨t', h1, h2, h3⟩ := ih (passStep p (.mutate f)) todo (by simp [passStep, h])
+      exact ⟨t', h1, h2, by simpa [visits] using h3⟩
+    | visit =>
+      cases todo with
+      | nil =>
+        have e : passStep p .visit = p := by simp [passStep, h]
+        simp only [passRun, e]
+        obtain ⟨t', h1, h2, h3⟩ := ih p [] h
+        exact ⟨t', h1, h2, by simp at h3 ⊢; exact h3⟩
+      | cons i r =>
+        obtain ⟨t', h1, h2, h3⟩ := ih (passStep p .visit) r (by simp [passStep, h])
+        refine ⟨t', h1, ?_, by simp [visits] at h3 ⊢; omega⟩
+        simp only [passRun]
+        rw [h2]
+        simp [passStep, h, shutdownEvents, List.append_assoc]
+
+
 end Casket.Lifecycle
